@@ -306,8 +306,13 @@ static int copy_set(rset_t *dst, const rset_t *src)
 	return 0;
 }
 
+/* present only in the allocfault build */
+extern void verif_alloc_arm(long k) __attribute__((weak));
+extern long verif_alloc_disarm(void) __attribute__((weak));
+
 int main(int argc, char **argv)
 {
+	int o_vs_twin = 0;
 	rset_t O, C, T;
 	FILE *f;
 	char line[8192];
@@ -351,8 +356,36 @@ int main(int argc, char **argv)
 				return r;
 			continue;
 		}
+		if (!strcmp(line, "failcopy")) {
+			/* copy every object while the k-th allocation fails; whatever was copied is released at once; from here on
+			   the ORIGINAL is compared with a twin that has the same history: a failed (or released) copy must not
+			   have touched it */
+			long k = strtol(rest, NULL, 10), seen = 0;
+			if (have_copy || !o_alive || o_vs_twin)
+				continue;
+			if (verif_alloc_arm)
+				verif_alloc_arm(k);
+			copy_set(&C, &O);
+			if (verif_alloc_disarm)
+				seen = verif_alloc_disarm();
+			rset_close(&C);
+			printf("FAILCOPY k=%ld allocations=%ld delivered=%d\n", k, seen < 0 ? -seen : seen, seen < 0);
+			if (rset_open(&T, argv[1]) != 0)
+				return 2;
+			for (int i = 0; i < npre; ++i) {
+				char *cp = strdup(pre[i]), *a = strchr(cp, ' ');
+				if (a)
+					*(a++) = '\0';
+				else
+					a = cp + strlen(cp);
+				do_op(&T, cp, a);
+				free(cp);
+			}
+			o_vs_twin = 1;
+			continue;
+		}
 		if (!strcmp(line, "copy")) {
-			if (have_copy || !o_alive)
+			if (have_copy || !o_alive || o_vs_twin)
 				continue;
 			if (copy_set(&C, &O) != 0) {
 				printf("MISMATCH %ld an object of the reader set cannot be copied\n", lineno);
@@ -402,7 +435,18 @@ int main(int argc, char **argv)
 				free(cp);
 			}
 		} else if (!strcmp(line, "o")) {
-			if (o_alive) {
+			if (o_alive && o_vs_twin) {
+				char *c1 = strdup(args), *c2 = strdup(args);
+				res_t a = do_op(&O, op, c1);
+				res_t b = do_op(&T, op, c2);
+				free(c1);
+				free(c2);
+				if (a.status != b.status || a.digest != b.digest) {
+					printf("MISMATCH %ld %s %s: original after a failed / released copy=%d:%016llx twin=%d:%016llx\n", lineno, op, args,
+					       a.status, (unsigned long long)a.digest, b.status, (unsigned long long)b.digest);
+					return 3;
+				}
+			} else if (o_alive) {
 				char *cp = strdup(args);
 				do_op(&O, op, cp);
 				free(cp);
